@@ -588,6 +588,14 @@ def check(tier: str) -> Report:
         "get_virtual_point_data; the vector likewise. Separately the store log is scanned for '=' after '+=' on one entry."
     )
     ix = get_index()
+    check_matrix_rows(rep, ix)
+    check_residual_guard(rep, ix)
+    _check_tail(rep, ix)
+    return rep
+
+
+def check_matrix_rows(rep: Report, ix, rule_mismatch: str = "C18.matrix-vs-stencil", rule_overwrite: str | None = "C18.overwrite-after-accumulate") -> None:
+    """matrix rows == numba stencil with ghost cells eliminated (shared with C03's matrix route)"""
     jobs = []
     for rel, fname, gcls, n_axes in ASSEMBLERS:
         ix.func(rel, fname)
@@ -630,14 +638,16 @@ def check(tier: str) -> Report:
         rep.oblige(f"{fname}@{gcls}:{tag}:matrix==stencil∘bc", ok, res["mismatch"][:3])
         for mm in res["mismatch"][:4]:
             rep.violation(
-                "C18.matrix-vs-stencil",
+                rule_mismatch,
                 f"{rel}::{fname}::{gcls}::{'|'.join(a + b for a, b in kinds)}::{'r_min=0' if rz else 'r_min>0'}",
                 f"[{tag}] row case {mm['case']}: {mm['what']}",
             )
+        if rule_overwrite is None:
+            continue
         rep.oblige(f"{fname}@{gcls}:{tag}:no-overwrite-after-accumulate", not res["overwrites"], res["overwrites"][:3])
         for ow in res["overwrites"][:2]:
             rep.violation(
-                "C18.overwrite-after-accumulate",
+                rule_overwrite,
                 f"{rel}::{fname}::entry-store",
                 f"[{tag}] row case {ow['case']}: matrix entry {ow['key']} is assigned with `=` after boundary contributions were accumulated into it with `+=` (contribution lost)",
                 line=ow["line"],
@@ -645,7 +655,9 @@ def check(tier: str) -> Report:
         if len(rep.samples) < 8 and res["samples"]:
             rep.sample({"row": tag, "assembler": f"{rel}::{fname}", "extracted": res["samples"][0]})
     rep.floor("matrix rows compared", n_rows, 500)
-    check_residual_guard(rep, ix)
+
+
+def _check_tail(rep: Report, ix) -> None:
     # solve_laplace_equation = Poisson with zero right-hand side
     fl = ix.func("pde/pdes/laplace.py", "solve_laplace_equation")
     rep.saw("functions", fl.ref)
@@ -660,4 +672,3 @@ def check(tier: str) -> Report:
         "accuracy of spsolve / lsmr is not decided; the residual test in solve_poisson is what guards it",
         "MixedBC on its finite-coefficient branch",
     ]
-    return rep
